@@ -133,10 +133,15 @@ impl Context {
     pub fn eval(&mut self, expr: &Query) -> JsValue {
         let value = self.context.eval_query(&expr.query);
         if self.context.save_previous_result {
-            if let Ok(QueryReply::Number(ref number_parts)) = value {
-                if let Some(ref raw) = number_parts.raw_value {
-                    self.context.previous_result = Some(raw.clone());
-                }
+            // A time value is shown as a duration breakdown, but it is
+            // still the numeric result of the expression.
+            let number_parts = match value {
+                Ok(QueryReply::Number(ref number_parts)) => Some(number_parts),
+                Ok(QueryReply::Duration(ref duration)) => Some(&duration.raw),
+                _ => None,
+            };
+            if let Some(raw) = number_parts.and_then(|parts| parts.raw_value.as_ref()) {
+                self.context.previous_result = Some(raw.clone());
             }
         }
         let value = Success::from(value);
@@ -150,10 +155,15 @@ impl Context {
     pub fn eval_tokens(&mut self, expr: &Query) -> JsValue {
         let value = self.context.eval_query(&expr.query);
         if self.context.save_previous_result {
-            if let Ok(QueryReply::Number(ref number_parts)) = value {
-                if let Some(ref raw) = number_parts.raw_value {
-                    self.context.previous_result = Some(raw.clone());
-                }
+            // A time value is shown as a duration breakdown, but it is
+            // still the numeric result of the expression.
+            let number_parts = match value {
+                Ok(QueryReply::Number(ref number_parts)) => Some(number_parts),
+                Ok(QueryReply::Duration(ref duration)) => Some(&duration.raw),
+                _ => None,
+            };
+            if let Some(raw) = number_parts.and_then(|parts| parts.raw_value.as_ref()) {
+                self.context.previous_result = Some(raw.clone());
             }
         }
         let spans = value.to_spans();
